@@ -50,3 +50,24 @@ TEXT["C08"] = {"ref": "DESIGN.md §7 C08", "technique": "Lean 4 theorems about t
 TEXT["C09"] = {"ref": "DESIGN.md §7 C09", "technique": "Lean 4 frame theorems (head ++ value ++ tail = raw; leading/trailing kept) + correspondence + independent decoders (passlib, own $9$ decoder)",
     "text": "Proved: _extract_enclosing_text loses nothing (head ++ value ++ tail = raw for every input and table of enclosing texts) and _anonymize_value returns head ++ replacement ++ tail; replace_matching_item returns leading ++ body' ++ trailing; the $9$ replacement decrypts (C18); closed forms for the type-7 prefix and hex length. Format preservation per class (type 7 decodable, md5 salt length, $6$, digits, hex) is validated with independent decoders on every run.",
     "note": SECNOTE}
+
+TXTNOTE = ("Model: lean/Netconan/Model/{Secrets,Words,Lines,IpText,Regex}.lean, hand-written after the Python code, patterns pinned from CPython's parser; "
+           "tied to /repo by the pipeline correspondence on every run. Not modelled: interpreter start-up, the random module, logging internals, file I/O.")
+TEXT["C10"] = {"ref": "DESIGN.md §7 C10", "technique": "Lean 4 theorems about the word-anonymizer model (reserved tokens kept, pseudonym alphabet/length, token structure) + correspondence + case-insensitive survival search across hash seeds",
+    "text": "Partial (T0). Proved: a token that is a conflicting reserved word is returned unchanged; the pseudonym is a function of salt and matched text, has at most 6 characters, all hexadecimal; one output token per input token with leading/trailing white space kept. The no-survival statement is validated on every run by searching the implementation's output case-insensitively for every listed word (all token positions, embedded occurrences, prefix/substring word lists) in processes with different hash seeds; not yet a theorem.",
+    "note": TXTNOTE}
+TEXT["C11"] = {"ref": "DESIGN.md §7 C11", "technique": "Lean 4 theorem for every hash value and every number (case analysis over the regenerated block table + omega) + correspondence + independent digit-run scanner",
+    "text": "Proved for every hash value H and every n < 2^32: the replacement exists, lies in the AS block of n and below 2^32 (so both ends of the replacement range are covered); numbers above 4294967295 are refused; the block table regenerated from the code equals the documented one (kernel-decided). Whole-number-only matching in text is validated with an independent digit-run scanner (prefix pairs, adjacent punctuation, Unicode digits), not yet proved.",
+    "note": TXTNOTE}
+TEXT["C12"] = {"ref": "DESIGN.md §7 C12", "technique": "Lean 4 theorems by induction over the line list (length, split invariance, statelessness without secrets, line frame) + correspondence + structure oracle",
+    "text": "Proved: readlines loses nothing; anonymize_io emits exactly one line per input line in order; processing a text in two parts with the table carried over equals processing it at once; without secret anonymization a line's output is a function of that line alone; the secret stage returns leading ++ body' ++ trailing. That tokens outside matched spans are carried over verbatim by the regex stages needs the engine's frame theorem (T1) and is validated by the structure oracle on ordinary-vocabulary lines for all feature subsets.",
+    "note": TXTNOTE}
+TEXT["C13"] = {"ref": "DESIGN.md §7 C13", "technique": "purity of the Lean model + correspondence across interpreter processes, hash seeds and construction histories",
+    "text": "Partial by nature. The model is a total function of (configuration, lookup table, text) with no environment among its arguments, and the correspondence shows the implementation computes this function in separate processes with different PYTHONHASHSEED values and after unrelated anonymizers were constructed; the no-salt clause is stated and the reported salt is replayed on the real code. Interpreter start-up, the real PRNG and the hash-seed machinery are not modelled.",
+    "note": TXTNOTE}
+TEXT["C14"] = {"ref": "DESIGN.md §7 C14", "technique": "Lean 4 totality theorem over the whole per-line pipeline (every raise site unreachable) + hostile-input search on the real code",
+    "text": "Proved: for every line, lookup table, salt string and feature subset the per-line function of the model returns ok (the only other outcome is the model's own out-of-fuel, which the correspondence would report); _anonymize_value never raises (Juniper re-encoding total for every salt, re-decryption by the C18 round trip); unparsable address matches are left alone. One hypothesis is explicit: a value with a non-empty $9$ plaintext is classified as $9$ by the six format patterns (validated on every run, not yet derived from the trees).",
+    "note": TXTNOTE}
+TEXT["C15"] = {"ref": "DESIGN.md §7 C15", "technique": "Lean 4 composition theorem (multi-feature step = single-feature steps in fixed order) + differential runs multi-feature vs chained single-feature anonymizers",
+    "text": "Proved: for every pipeline (all 2^4 feature subsets, undo in place of anonymize) the per-line step equals the secrets-only step followed by the IP-only, words-only and AS-only stages in that order, each stage being determined by its own options and the salt; an absent feature is the identity; the secret stage is unaffected by the other features. The real multi-feature FileAnonymizer is compared with chained single-feature ones on seeded texts for all subsets.",
+    "note": TXTNOTE}
